@@ -442,6 +442,7 @@ def _run(ctx, rng, quick, nmax, threads_set, impl):
                 fam += '_tinyrows'
                 n, adj = (block(r, c, ent) if bip else (r, ent))
         truth = exact_pagerank(n, adj, alpha, y)
+        before = rng.sample(['Katz', 'HITS', 'Closeness', 'Betweenness', 'PageRank'], rng.randint(1, 2)) if gi % 4 == 1 else None
         for solver in SOLVERS:
             if solver == 'lanczos' and n < 3:
                 continue
@@ -455,6 +456,8 @@ def _run(ctx, rng, quick, nmax, threads_set, impl):
                 for rep in range(reps):
                     args = dict(m=mspec(r, c, ent, dtype), solver=solver, damping=float(alpha), force_bipartite=force_bip,
                                 **BUDGET[solver], **kw)
+                    if before:
+                        args['before'] = before
                     res = impl(k).call('c04', 'pagerank', args, timeout=30)
                     ctx.traces += 1
                     nontrivial = alpha > 0 or form != 'none'
